@@ -310,6 +310,9 @@ func Replay(c Case) Result {
 	if c.Cfg.Moment == "handshake" {
 		return replayHandshake(c)
 	}
+	if c.Cfg.Moment == "ping" {
+		return replayPing(c)
+	}
 	res := Result{N: c.N, Cfg: c.Cfg}
 	r := &rec{}
 	ln, err := net.Listen("tcp", "127.0.0.1:0")
@@ -378,11 +381,12 @@ func Replay(c Case) Result {
 				m := &lime.Message{}
 				m.ID = tag
 				m.SetContent(lime.TextDocument("x"))
-				ctx, cancel := context.WithTimeout(context.Background(), time.Second)
-				err := client.SendMessage(ctx, m)
-				cancel()
+				err := sendGuarded(client, m, time.Second)
 				if err == nil {
 					r.log(Event{K: "send", Tag: tag, Res: "ok"})
+				} else if err == errHang {
+					r.log(Event{K: "send", Tag: tag, Res: "hang"})
+					return
 				} else {
 					r.log(Event{K: "send", Tag: tag, Res: "err"})
 				}
@@ -430,12 +434,12 @@ func Replay(c Case) Result {
 		m := &lime.Message{}
 		m.ID = "u-after"
 		m.SetContent(lime.TextDocument("x"))
-		ctx, cancel := context.WithTimeout(context.Background(), 2*time.Second)
-		err := client.SendMessage(ctx, m)
-		cancel()
+		err := sendGuarded(client, m, 2*time.Second)
 		if err == nil {
 			r.log(Event{K: "send", Tag: "u-after", Res: "ok"})
 			waitFor(func() bool { return r.has("recv", "u-after") }, 2*time.Second)
+		} else if err == errHang {
+			r.log(Event{K: "send", Tag: "u-after", Res: "hang"})
 		} else {
 			r.log(Event{K: "send", Tag: "u-after", Res: "err"})
 		}
@@ -544,4 +548,110 @@ func replayHandshake(c Case) Result {
 	res.Actual = append([]Event(nil), r.evs...)
 	r.mu.Unlock()
 	return res
+}
+
+// replayPing: a Client made with ClientBuilder.AutoReplyPings is sent a ping request by the scripted
+// server; what it answers must be a response the library itself can decode, correlated with the
+// request and carrying the ping resource with its type (C11: "the built-in ping auto-reply").
+func replayPing(c Case) Result {
+	res := Result{N: c.N, Cfg: c.Cfg}
+	r := &rec{}
+	ln, err := net.Listen("tcp", "127.0.0.1:0")
+	if err != nil {
+		res.Note = "listen: " + err.Error()
+		return res
+	}
+	defer ln.Close()
+	go func() {
+		for {
+			cn, err := ln.Accept()
+			if err != nil {
+				return
+			}
+			go func(cn net.Conn) {
+				defer cn.Close()
+				br := bufio.NewReader(cn)
+				line, err := br.ReadBytes('\n')
+				if err != nil && len(line) == 0 {
+					return
+				}
+				sid := "5e551041-0000-4000-8000-0000000000aa"
+				fmt.Fprintf(cn, `{"id":%q,"from":"postmaster@example.com/srv","to":"cli@example.com/i","state":"established"}`+"\n", sid)
+				r.log(Event{K: "session", N: 1})
+				fmt.Fprintf(cn, `{"id":"ping-1","from":"postmaster@example.com/srv","pp":"watch@example.com/dog","to":"cli@example.com/i","method":"get","uri":"/ping"}`+"\n")
+				cn.SetReadDeadline(time.Now().Add(2 * time.Second))
+				dec := json.NewDecoder(br)
+				for {
+					var raw json.RawMessage
+					if err := dec.Decode(&raw); err != nil {
+						return
+					}
+					var m map[string]interface{}
+					if json.Unmarshal(raw, &m) != nil {
+						continue
+					}
+					if st, _ := m["state"].(string); st == "finishing" {
+						fmt.Fprintf(cn, `{"id":%q,"from":"postmaster@example.com/srv","state":"finished"}`+"\n", sid)
+						return
+					}
+					if id, _ := m["id"].(string); id != "ping-1" {
+						continue
+					}
+					why := ""
+					var rc lime.ResponseCommand
+					switch {
+					case json.Unmarshal(raw, &rc) != nil:
+						why = "undecodable"
+					case rc.Status != lime.CommandStatusSuccess || rc.Method != lime.CommandMethodGet:
+						why = "status-or-method"
+					case rc.Resource == nil || rc.Type == nil || rc.Type.String() != "application/vnd.lime.ping+json":
+						why = "resource-or-type"
+					case rc.To.String() != "watch@example.com/dog": // the request's sender is its delegation node
+						why = "addressed-to-" + rc.To.String()
+					}
+					if why == "" {
+						r.log(Event{K: "pingreply", Res: "ok"})
+					} else {
+						r.log(Event{K: "pingreply", Res: why})
+					}
+				}
+			}(cn)
+		}
+	}()
+	b := lime.NewClientBuilder().Name("cli").Domain("example.com").Instance("i").
+		UseTCP(ln.Addr(), &lime.TCPConfig{}).GuestAuthentication().AutoReplyPings()
+	client := b.Build()
+	waitFor(func() bool { return r.count("pingreply") >= 1 }, 3*time.Second)
+	if r.count("pingreply") == 0 {
+		r.log(Event{K: "pingreply", Res: "none"})
+	}
+	closed := make(chan struct{})
+	go func() { _ = client.Close(); close(closed) }()
+	endRes := "closed"
+	select {
+	case <-closed:
+	case <-time.After(8 * time.Second):
+		endRes = "close-hangs"
+	}
+	r.log(Event{K: "end", Res: endRes})
+	r.mu.Lock()
+	res.Actual = append([]Event(nil), r.evs...)
+	r.mu.Unlock()
+	return res
+}
+
+var errHang = errors.New("the call did not return 3 s after its context had ended")
+
+// sendGuarded: SendMessage under a deadline; a call that ignores its context is abandoned (and reported)
+func sendGuarded(client *lime.Client, m *lime.Message, d time.Duration) error {
+	ctx, cancel := context.WithTimeout(context.Background(), d)
+	defer cancel()
+	done := make(chan error, 1)
+	go func() { done <- client.SendMessage(ctx, m) }()
+	select {
+	case err := <-done:
+		return err
+	case <-time.After(d + 3*time.Second):
+		return errHang
+	}
 }
